@@ -538,7 +538,33 @@ Proof. intros i rs. apply not_supported_forces_bc. reflexivity. Qed.
 Theorem folded_sfs_forces_bc : forall i rs, In (RFoldedSFS i) rs -> choose_lc rs = false.
 Proof. intros i rs. apply not_supported_forces_bc. reflexivity. Qed.
 
+(* any reward r0 times the (un)folded SFS rewards decomposes r0 times the total branch length (r0 = the unit reward: the spectrum
+   of SFSDistribution; r0 = a deme reward: its per-population marginals) *)
+Theorem sfs_family_decompose :
+  forall n r0 s, (2 <= n)%nat -> bc_inv n s ->
+    fold_right Rplus 0 (map (fun i => reward_get OpsR n (RProduct [r0; RUnfoldedSFS i]) s) (seq 1 (n - 1)))
+    = reward_get OpsR n (RProduct [r0; RTotalBranchLength]) s.
+Proof.
+  intros n r0 s Hn Hinv.
+  rewrite (map_ext _ (fun i => reward_get OpsR n r0 s * reward_get OpsR n (RUnfoldedSFS i) s)).
+  2:{ intros i. rewrite product_reward_pointwise. cbn [map fold_right]. lra. }
+  rewrite Rsum_scal_l, (sfs_sums_to_branch_length n s Hn Hinv), product_reward_pointwise. cbn [map fold_right]. lra.
+Qed.
+
+Theorem folded_sfs_family_decompose :
+  forall n r0 s, (2 <= n)%nat -> bc_inv n s ->
+    fold_right Rplus 0 (map (fun i => reward_get OpsR n (RProduct [r0; RFoldedSFS i]) s) (seq 1 (n / 2)))
+    = reward_get OpsR n (RProduct [r0; RTotalBranchLength]) s.
+Proof.
+  intros n r0 s Hn Hinv.
+  rewrite (map_ext _ (fun i => reward_get OpsR n r0 s * reward_get OpsR n (RFoldedSFS i) s)).
+  2:{ intros i. rewrite product_reward_pointwise. cbn [map fold_right]. lra. }
+  rewrite Rsum_scal_l, (folded_sfs_sums_to_branch_length n s Hn Hinv), product_reward_pointwise. cbn [map fold_right]. lra.
+Qed.
+
 Print Assumptions sfs_sums_to_branch_length.
+Print Assumptions sfs_family_decompose.
+Print Assumptions folded_sfs_family_decompose.
 Print Assumptions weighted_sfs_is_n_height.
 Print Assumptions folded_is_fold.
 Print Assumptions folded_sfs_sums_to_branch_length.
